@@ -27,7 +27,8 @@ static struct { void *p; size_t n; } MZ[64]; static int NMZ;
 static void d_memzero(void *const p, const size_t n) { if (NMZ < 64) { MZ[NMZ].p = p; MZ[NMZ].n = n; NMZ++; } volatile uint8_t *q = p; for (size_t i = 0; i < n; i++) q[i] = 0; }
 static __attribute__((noinline)) void nfc_in(const char *s, char *o) { RET = u_nfc(s, o, CAP); }
 static __attribute__((noinline)) void nfkd_in(const char *s, char *o) { RET = u_nfkd(s, o, CAP); }
-static size_t d_nfc(const char *s, polyseed_str o) { nfc_in(s, o); repaint(); return RET; }
+static int NFC_FAILS;   /* the composing callback reports failure: writes nothing, returns (size_t)-1 */
+static size_t d_nfc(const char *s, polyseed_str o) { if (NFC_FAILS) { o[0] = 0; return (size_t)-1; } nfc_in(s, o); repaint(); return RET; }
 static size_t d_nfkd(const char *s, polyseed_str o) { nfkd_in(s, o); repaint(); return RET; }
 static uint64_t d_time(void) { return T_CLOCK; }
 static struct { void *p; size_t n; } BLK[16]; static int NBLK; static int ERR_DIRTY, ERR_UNWIPED, ERR_FOREIGN;
@@ -185,6 +186,11 @@ int main(int argc, char **argv) {
             J.S = seed; J.lang = li; J.coin = 1; call(F_ENCODE, cell + 7, -1);
         }
         NND = base_nd;
+        if (WANT("encode/nfc-callback-fails")) {     /* the phrase and the indices must be wiped on this exit too */
+            char ph[2048]; ref_phrase(&rs, 2, 1, ph, 1); nd_phrase_words(ph, "phrase-word(stored form)");
+            J.S = seed; J.lang = 2; J.coin = 1; NFC_FAILS = 1; call(F_ENCODE, "nfc-callback-fails", -1); NFC_FAILS = 0;
+        }
+        NND = base_nd;
         /* ---- decoders */
         for (int ex = 0; ex < 2; ex++) {
             int fn = ex ? F_DECODE_EX : F_DECODE;
@@ -220,11 +226,15 @@ int main(int argc, char **argv) {
         }
         NND = base_nd;
         /* ---- crypt */
-        for (int k = 0; k < 2; k++) {
-            char cell[48]; snprintf(cell, sizeof cell, "crypt/%s", k ? "non-ascii-password" : "ascii-password"); if (!WANT(cell)) continue;
-            strcpy(J.pw, PW[k]); NND = base_nd; nd_windows((const uint8_t *)PW[k], strlen(PW[k]), 8, "password"); { char nf[256]; size_t nl = u_nfkd(PW[k], nf, sizeof nf - 1); nd_windows((const uint8_t *)nf, nl, 8, "password(NFKD)"); }
-            J.S = seed; call(F_CRYPT, cell + 6, -1);
-            polyseed_crypt(seed, PW[k]);   /* back to the plain seed */
+        static char LONGPW[2][600]; if (!LONGPW[0][0]) { for (int i = 0; i < 400; i++) LONGPW[0][i] = (char)('!' + (i * 7 + i / 13) % 90); for (int i = 0; i < 150; i++) { LONGPW[1][2 * i] = (char)0xC3; LONGPW[1][2 * i + 1] = (char)(0xA0 + (i * 5) % 30); } }
+        for (int k = 0; k < 4; k++) {
+            static const char *CN[4] = { "ascii-password", "non-ascii-password", "long-ascii-password", "long-non-ascii-password" };
+            const char *PWk = k < 2 ? PW[k] : LONGPW[k - 2];
+            char cell[48]; snprintf(cell, sizeof cell, "crypt/%s", CN[k]); if (!WANT(cell)) continue;
+            J.pw = realloc(J.pw, 700); strcpy(J.pw, PWk); NND = base_nd; { size_t L = strlen(PWk); if (L <= 40) nd_windows((const uint8_t *)PWk, L, 8, "password"); else for (size_t o2 = 0; o2 + 12 <= L && NND < 380; o2 += 9) nd_add(PWk + o2, 12, "password"); }
+            { char nf[700]; size_t nl = u_nfkd(PWk, nf, sizeof nf - 1); if (nl <= 60) nd_windows((const uint8_t *)nf, nl, 8, "password(NFKD)"); else for (size_t o2 = 0; o2 + 12 <= nl && o2 < 543 && NND < 395; o2 += 29) nd_add(nf + o2, 12, "password(NFKD)"); }
+            J.S = seed; call(F_CRYPT, CN[k], -1);
+            polyseed_crypt(seed, PWk);   /* back to the plain seed */
         }
         NND = base_nd;
         if (WANT("free/ok")) { J.S = seed; call(F_FREE, "ok", -1); seed = NULL; }
